@@ -94,6 +94,7 @@ type IPCPStateMachine struct {
 	config     IPCPConfig
 	negotiated IPCPNegotiatedOptions
 	sessionID  string // For IP pool allocation
+	fromPool   bool   // config.PeerIP was obtained from IPPool (and is released by Down)
 
 	// Counters
 	restartCount   int
@@ -190,6 +191,7 @@ func (ipcp *IPCPStateMachine) Up() {
 	if ipcp.config.PeerIP == nil && ipcp.config.IPPool != nil {
 		ipcp.config.PeerIP = ipcp.config.IPPool.Allocate(ipcp.sessionID)
 		ipcp.negotiated.PeerIP = ipcp.config.PeerIP
+		ipcp.fromPool = ipcp.config.PeerIP != nil
 		ipcp.logger.Debug("Allocated IP for peer",
 			zap.String("ip", ipcp.config.PeerIP.String()),
 		)
@@ -215,6 +217,12 @@ func (ipcp *IPCPStateMachine) Down() {
 	// Release allocated IP
 	if ipcp.config.IPPool != nil && ipcp.negotiated.PeerIP != nil {
 		ipcp.config.IPPool.Release(ipcp.sessionID)
+		if ipcp.fromPool {
+			// the address is back in the pool: forget it, the next Up() allocates afresh
+			ipcp.config.PeerIP = nil
+			ipcp.negotiated.PeerIP = nil
+			ipcp.fromPool = false
+		}
 	}
 
 	switch ipcp.state {
